@@ -54,6 +54,7 @@ type VC struct {
 	cellN    int
 	stack    []*ssa.Function
 	ghostEntry map[string]*Term
+	symCache   map[int]map[string]bool
 }
 
 func newVC(p *Program, fn *ssa.Function) *VC {
@@ -130,6 +131,7 @@ type Frame struct {
 	specEnv map[string]SVal // parameter bindings for contract clauses
 	entry  *State
 	curLoopHead *ssa.BasicBlock
+	curCallEnv  map[string]SVal
 }
 
 type retEdge struct {
@@ -395,7 +397,8 @@ func (fr *Frame) mkEdge(from, to *ssa.BasicBlock, st *State) *Edge {
 func (fr *Frame) execLoop(l *Loop, entry []*Edge) []*Edge {
 	vc := fr.vc
 	invs := fr.invariantsFor(l)
-	if len(invs) == 0 {
+	inlined := fr.fn != vc.top
+	if len(invs) == 0 || inlined {
 		// try exact unrolling
 		var exits []*Edge
 		edges := entry
@@ -428,11 +431,13 @@ func (fr *Frame) execLoop(l *Loop, entry []*Edge) []*Edge {
 		if vc.refute {
 			return exits // bounded exploration: paths needing more iterations are dropped
 		}
-		// roll back and fall through to the generic invariant
+		// roll back and fall through to the invariant (the generic "anything assigned is arbitrary" one if none is given)
 		vc.facts = vc.facts[:snapFacts]
 		vc.obls = vc.obls[:snapObls]
 		_ = snapAlloc
-		vc.warn("loop %d of %s: no invariant and trip count not constant: generic havoc invariant used", l.Ord, vc.prog.shortName(fr.fn))
+		if len(invs) == 0 {
+			vc.warn("loop %d of %s: no invariant and trip count not constant: generic havoc invariant used", l.Ord, vc.prog.shortName(fr.fn))
+		}
 	}
 	// invariant mode
 	savedHead := fr.curLoopHead
@@ -459,6 +464,12 @@ func (fr *Frame) execLoop(l *Loop, entry []*Edge) []*Edge {
 			break
 		}
 		fr.env[phi] = freshValue(phi.Type(), "phi."+phi.Comment, vc.allocN)
+		if phi.Comment == "rangeindex" {
+			// go/ssa lowers "range" over a slice to an index that starts at -1 and is only incremented
+			vc.addFact(hst, Le(IntLit(-1), fr.env[phi].(*Term)))
+		} else {
+			vc.wellFormed(hst, fr.env[phi])
+		}
 	}
 	fr.havocLoopTargets(l, hst)
 	for _, cl := range invs {
@@ -536,9 +547,36 @@ func (fr *Frame) havocLoopTargets(l *Loop, st *State) {
 	heapKeys := map[string]bool{}
 	all := false
 	ghosts := false
+	freshOnly := false
+	inLoopAlloc := func(v ssa.Value) bool {
+		for {
+			switch x := v.(type) {
+			case *ssa.Alloc:
+				return l.Blocks[x.Block()]
+			case *ssa.MakeSlice:
+				return l.Blocks[x.Block()]
+			case *ssa.FieldAddr:
+				v = x.X
+			case *ssa.IndexAddr:
+				v = x.X
+			case *ssa.Slice:
+				v = x.X
+			default:
+				return false
+			}
+		}
+	}
 	for b := range l.Blocks {
 		for _, ins := range b.Instrs {
 			switch x := ins.(type) {
+			case *ssa.Alloc:
+				if !simpleLocal(x) {
+					freshOnly = true
+				}
+			case *ssa.MakeSlice, *ssa.MakeMap, *ssa.MakeInterface, *ssa.MakeClosure:
+				freshOnly = true
+			case *ssa.Convert:
+				freshOnly = true
 			case *ssa.Store:
 				if a, ok := rootAllocOf(x.Addr); ok && simpleLocal(a) {
 					if c := fr.cells[a]; c != nil {
@@ -548,6 +586,10 @@ func (fr *Frame) havocLoopTargets(l *Loop, st *State) {
 					}
 					continue
 				}
+				if inLoopAlloc(x.Addr) {
+					freshOnly = true
+					continue
+				}
 				fr.keysOfType(x.Val.Type(), heapKeys)
 			case *ssa.MapUpdate:
 				all = true
@@ -555,8 +597,16 @@ func (fr *Frame) havocLoopTargets(l *Loop, st *State) {
 				com := x.Common()
 				_, isFn := com.Value.(*ssa.Function)
 				_, isMC := com.Value.(*ssa.MakeClosure)
-				_, isBI := com.Value.(*ssa.Builtin)
-				if !com.IsInvoke() && !isFn && !isMC && !isBI {
+				bi, isBI := com.Value.(*ssa.Builtin)
+				if isBI {
+					if bi.Name() == "append" {
+						freshOnly = true
+					} else if bi.Name() == "copy" || bi.Name() == "delete" {
+						all = true
+					}
+					continue
+				}
+				if !com.IsInvoke() && !isFn && !isMC {
 					// call through a function value: closures known to this run may write memory, unknown ones only the ghost trace
 					ghosts = true
 					sig := com.Value.Type().Underlying().(*types.Signature)
@@ -569,9 +619,20 @@ func (fr *Frame) havocLoopTargets(l *Loop, st *State) {
 				}
 				if fr.callMayWriteHeap(x) {
 					all = true
+				} else {
+					freshOnly = true // the callee may allocate
 				}
 			}
 		}
+	}
+	if freshOnly && !all {
+		for k, h := range st.Heap {
+			if !heapKeys[k] {
+				st.Heap[k] = HavocAbove(h, vc.allocN, VarB(freshName(k+"@loopfresh"), h.S, vc.allocN+1000000))
+			}
+		}
+		// allocation ids used by earlier iterations are unknown: reserve a family for them
+		vc.allocN++
 	}
 	if ghosts && !all {
 		for g := range st.Ghost {
